@@ -169,6 +169,18 @@ func TestC09Multi(t *testing.T) {
 			if i%3 == 0 { // small, busy caches: frequent evictions
 				cc.Limit = 1 + (i+j)%3
 			}
+			if i%50 == 7 {
+				// a hammer: 8 tiny caches, each with thousands of plain operations,
+				// so that the goroutines really run at the same time for a while
+				cc = CacheCase{Limit: 2 + j%2, SizeMode: "unit"}
+				for e := 0; e < 60; e++ {
+					for _, op := range gen.Example(base + 100000 + i*1000 + j*60 + e).Ops {
+						if op.Kind != "churn" {
+							cc.Ops = append(cc.Ops, op)
+						}
+					}
+				}
+			}
 			c.Caches = append(c.Caches, cc)
 		}
 		b, _ := vk.Marshal(c)
